@@ -114,11 +114,21 @@ def audit_binning(rec: core.Recorder, b, *, op: str, detail=None, deep: bool = T
         reg = bool(b.is_regular())
         if name == "ExponentialBinning":
             pass  # declared irregular by design (even for one bin)
-        elif spread <= 1e-9 * float(widths.max()) and not reg:
+        elif (spread <= 1e-9 * float(widths.max()) or spread <= 2 * float(np.spacing(np.max(np.abs(bins))))) and not reg:
             fail("is_regular() is False although all widths are equal", ["is_regular"], widths=widths[:6])
-        elif spread > 1e-3 * float(widths.max()) and reg and name != "FixedWidthBinning":
+        elif spread > 1e-3 * float(widths.max()) and spread > 16 * float(np.spacing(np.max(np.abs(bins)))) and reg and name != "FixedWidthBinning":
             # judged relative to the widths: bins of nanoseconds are as regular or irregular as bins of hours
             fail("is_regular() is True although the widths clearly differ", ["is_regular"], widths=widths[:6])
+        # the answer belongs to the bins, not to the class that describes them: the static copy and a full slice of the same bins agree
+        if n >= 2 and name in ("FixedWidthBinning", "NumpyBinning"):
+            try:
+                st_reg = bool(b.as_static().is_regular())
+                sl_reg = bool(b[:].is_regular()) if hasattr(b, "__getitem__") else st_reg
+            except Exception:
+                st_reg = sl_reg = reg
+            if st_reg != reg or sl_reg != reg:
+                fail("is_regular() of a binning disagrees with its static copy / full slice (the same bins)", ["is_regular"], own=reg, static_copy=st_reg, full_slice=sl_reg,
+                     widths=widths[:4], first_edge=float(bins[0, 0]))
     except Exception as e:
         fail(f"is_regular raises {type(e).__name__}", ["is_regular"], error=str(e)[:100])
     if not deep:
